@@ -25,6 +25,10 @@ type zvC21Case struct {
 	Offset int    `json:"offset"`
 	Value  byte   `json:"value"`
 	Split  int    `json:"split"`  // deliver in two reads, split at this byte (0 = one read)
+	// kind attr: the valid seed UPDATE with one more path attribute (flags, type code, length; value bytes 1,2,3,...)
+	AFlags byte `json:"attr_flags,omitempty"`
+	AType  byte `json:"attr_type,omitempty"`
+	ALen   int  `json:"attr_len,omitempty"`
 }
 
 var zvC21Seeds = map[string]func() []byte{
@@ -71,6 +75,19 @@ func (c zvC21Case) bytes() []byte {
 		b := zvC21Seeds[c.Seed]()
 		b[c.Offset] = c.Value
 		return b
+	case "attr":
+		v := make([]byte, c.ALen)
+		for i := range v {
+			v[i] = byte(i + 1)
+		}
+		attrs := []zvwAttr{zvwOrigin(0), zvwASPath(true, zvRemoteAS, 65010), zvwNextHop(10, 0, 0, 9), zvwMED(5)}
+		if c.Seed == "update6" {
+			nh := make([]byte, 16)
+			nh[0], nh[15] = 0x20, 9
+			attrs = []zvwAttr{zvwOrigin(0), zvwASPath(true, zvRemoteAS), zvwMPReach(2, 1, nh, zvwNLRI([]zvwPrefix{{Len: 48, Addr: []byte{0x20, 1, 0xd, 0xb8, 0, 1}}}, false))}
+			return zvwUpdate(nil, append(attrs, zvwAttr{c.AFlags, c.AType, v}), nil)
+		}
+		return zvwUpdate(nil, append(attrs, zvwAttr{c.AFlags, c.AType, v}), zvwNLRI([]zvwPrefix{zvR1}, false))
 	}
 	return nil
 }
@@ -231,6 +248,25 @@ func zvC21Check(r *vh.Run, c zvC21Case) {
 	} else {
 		r.Count("wellformed_header_cases", 1)
 	}
+	if c.Kind == "attr" {
+		r.Count("attribute_sweep_cases", 1)
+		if res.StateAfter == stateNameEstablished {
+			r.Count("attribute_sweep_session_stays_up", 1)
+		} else {
+			// the only thing wrong with the message can be the added attribute: UPDATE Message Error, then close
+			r.Count("attribute_sweep_session_reset", 1)
+			got := "none"
+			if len(res.Notifs) > 0 {
+				got = res.Notifs[0]
+			}
+			if len(got) < 2 || got[:2] != "3/" {
+				r.Violation(vh.Sig("clause", "notification", "class", "attribute", "got", got, "state", c.State), c, "UPDATE with an added attribute (flags %#x type %d length %d) reset the session; NOTIFICATION written before close: %v, RFC 4271 6.3 demands an UPDATE Message Error (3/x)", c.AFlags, c.AType, c.ALen, res.Notifs)
+			}
+			if !res.Closed {
+				r.Violation(vh.Sig("clause", "not-closed", "class", "attribute", "state", c.State), c, "session reset by an attribute error but the connection stayed open")
+			}
+		}
+	}
 }
 
 func zvC21Cases(thorough bool) []zvC21Case {
@@ -280,6 +316,27 @@ func zvC21Cases(thorough bool) []zvC21Case {
 			}
 		}
 	}
+	// one more path attribute on a valid UPDATE: every type code x flag combinations x lengths (established session)
+	flags := []byte{0x40, 0x80, 0xc0, 0x90}
+	alens := []int{0, 1, 3, 4, 7, 8}
+	seeds := []string{"update"}
+	if thorough {
+		flags = []byte{0x00, 0x40, 0x80, 0xc0, 0xe0, 0x50, 0x90, 0xd0}
+		alens = []int{0, 1, 2, 3, 4, 5, 6, 7, 8, 9, 12, 16, 255, 256}
+		seeds = []string{"update", "update6"}
+	}
+	for _, sd := range seeds {
+		for t := 0; t < 256; t++ {
+			for _, f := range flags {
+				for _, l := range alens {
+					if l > 255 && f&0x10 == 0 {
+						continue
+					}
+					cs = append(cs, zvC21Case{State: "established", Kind: "attr", Seed: sd, AFlags: f, AType: byte(t), ALen: l})
+				}
+			}
+		}
+	}
 	return cs
 }
 
@@ -287,8 +344,8 @@ func TestVerifC21(t *testing.T) {
 	r := vh.Start(t, "C21")
 	defer r.Finish()
 	r.Rule("byte streams delivered to a session in OpenSent / OpenConfirm / Established next to a second established session: header length field over the tier's set (0..40, 4090..4100, boundary values; thorough: 0..299, 3901..4399, every 257th, 65201..65535) x type {0,1,2,3,4,5,255}; " +
-		"marker corruptions at every offset; every offset x {0,1,0x7f,0x80,0xff} of five valid seed messages, also split across two reads; non-trivial = cases whose header is malformed by RFC 4271 6.1 (NOTIFICATION code/subcode checked)")
-	r.Require("malformed_header_cases", "wellformed_header_cases")
+		"marker corruptions at every offset; every offset x {0,1,0x7f,0x80,0xff} of five valid seed messages, also split across two reads; a valid UPDATE with one more path attribute of every type code 0..255 x flags {0x40,0x80,0xc0,0x90; thorough 8 combinations} x lengths {0,1,3,4,7,8; thorough 14 values, IPv4 and IPv6 seed}; non-trivial = cases whose header is malformed by RFC 4271 6.1 (NOTIFICATION code/subcode checked)")
+	r.Require("malformed_header_cases", "wellformed_header_cases", "attribute_sweep_session_stays_up", "attribute_sweep_session_reset")
 	if r.IsReplay() {
 		var c zvC21Case
 		r.ReplayCase(&c)
@@ -296,6 +353,8 @@ func TestVerifC21(t *testing.T) {
 		fmt.Printf("result: %+v\n", zvC21Run(c, true))
 		r.Count("malformed_header_cases", 1)
 		r.Count("wellformed_header_cases", 1)
+		r.Count("attribute_sweep_session_stays_up", 1)
+		r.Count("attribute_sweep_session_reset", 1)
 		return
 	}
 	cs := zvC21Cases(r.Thorough())
@@ -319,7 +378,7 @@ func TestVerifC21(t *testing.T) {
 
 func sortC21(cs []zvC21Case) {
 	key := func(c zvC21Case) string {
-		return fmt.Sprintf("%s|%s|%05d|%03d|%s|%04d|%03d|%04d", c.Kind, c.State, c.Length, c.Type, c.Seed, c.Offset, c.Value, c.Split)
+		return fmt.Sprintf("%s|%s|%05d|%03d|%s|%04d|%03d|%04d|%03d|%03d|%03d", c.Kind, c.State, c.Length, c.Type, c.Seed, c.Offset, c.Value, c.Split, c.AType, c.AFlags, c.ALen)
 	}
 	// insertion of keys then sort
 	ks := make([]string, len(cs))
